@@ -20,7 +20,7 @@ Theorem C08_alloc_refines :
   forall (s : mrb) (sz : N) (s' : mrb) (p : N) (d : list N),
   MInv s -> usable (size s) sz -> alloc s sz = Ok (s', Some p) -> len d = sz ->
   MInv s' /\ size s' = size s /\
-  (exists s'', fill s' p d = Ok s'' /\ MInv s'' /\ size s'' = size s /\ abs s'' = abs s ++ [d]) /\
+  (exists s'', fill s' p d = Ok s'' /\ MInv s'' /\ size s'' = size s /\ mrb_abs s'' = mrb_abs s ++ [d]) /\
   4 <= p /\ p + sz <= size s /\ disjoint_from_live s p sz.
 Proof. exact alloc_refines_guarded. Qed.
 Print Assumptions C08_alloc_refines.
@@ -29,7 +29,7 @@ Theorem C08_alloc_fixed_refines :
   forall (s : mrb) (sz : N) (s' : mrb) (p : N) (d : list N),
   MInv s -> alloc_fixed s sz = Ok (s', Some p) -> len d = sz ->
   MInv s' /\ size s' = size s /\
-  (exists s'', fill s' p d = Ok s'' /\ MInv s'' /\ size s'' = size s /\ abs s'' = abs s ++ [d]) /\
+  (exists s'', fill s' p d = Ok s'' /\ MInv s'' /\ size s'' = size s /\ mrb_abs s'' = mrb_abs s ++ [d]) /\
   4 <= p /\ p + sz <= size s /\ disjoint_from_live s p sz.
 Proof. exact alloc_fixed_refines. Qed.
 Print Assumptions C08_alloc_fixed_refines.
@@ -38,7 +38,7 @@ Print Assumptions C08_alloc_fixed_refines.
    at offset 10 and refuse a 3-byte message although 3 + 8 <= 48 *)
 Example C08_alloc_refines_ex :
   exists s, MInv s /\ size s = 48 /\ head s = 6 /\ tail s = 14 /\
-  abs s = [repeat 2 10; repeat 3 10; repeat 4 2] /\
+  mrb_abs s = [repeat 2 10; repeat 3 10; repeat 4 2] /\
   (exists s', alloc s 1 = Ok (s', Some 10)) /\ (exists s', alloc_fixed s 1 = Ok (s', Some 10)) /\
   alloc s 3 = Ok (s, None) /\ alloc_fixed s 3 = Ok (s, None) /\ usable (size s) 3.
 Proof. exact ex_state. Qed.
@@ -63,40 +63,40 @@ Theorem C08_alloc_fail_no_room :
   forall (s : mrb) (sz : N) (s' : mrb),
   MInv s -> usable (size s) sz ->
   (alloc s sz = Ok (s', None) \/ alloc_fixed s sz = Ok (s', None)) ->
-  abs s <> [] /\ Forall (fun run => run < 4 + sz + 6) (free_runs s).
+  mrb_abs s <> [] /\ Forall (fun run => run < 4 + sz + 6) (free_runs s).
 Proof. exact alloc_fail_no_room. Qed.
 Print Assumptions C08_alloc_fail_no_room.
 
 (* ---------- once emptied, every usable size can be allocated ---------- *)
 Theorem C08_empty_then_any :
   forall (s : mrb) (sz : N),
-  MInv s -> abs s = [] -> usable (size s) sz ->
+  MInv s -> mrb_abs s = [] -> usable (size s) sz ->
   (exists s' p, alloc s sz = Ok (s', Some p)) /\ (exists s' p, alloc_fixed s sz = Ok (s', Some p)).
 Proof. exact empty_then_any. Qed.
 Print Assumptions C08_empty_then_any.
 
 Example C08_empty_then_any_ex :
-  exists s, MInv s /\ abs s = [] /\ head s = 42 /\ usable (size s) 40.
+  exists s, MInv s /\ mrb_abs s = [] /\ head s = 42 /\ usable (size s) 40.
 Proof. exact ex_empty. Qed.
 Print Assumptions C08_empty_then_any_ex.
 
 (* ---------- peek / pop return the head of the FIFO with its size and bytes ---------- *)
 Theorem C08_peek_refines :
   forall s : mrb, MInv s ->
-  match abs s with
+  match mrb_abs s with
   | [] => peek s = Ok (s, None)
   | m :: _ => exists s' p, peek s = Ok (s', Some (p, len m)) /\ read_msg s' p (len m) = Ok m /\
-                           MInv s' /\ size s' = size s /\ abs s' = abs s
+                           MInv s' /\ size s' = size s /\ mrb_abs s' = mrb_abs s
   end.
 Proof. exact peek_refines. Qed.
 Print Assumptions C08_peek_refines.
 
 Theorem C08_pop_refines :
   forall s : mrb, MInv s ->
-  match abs s with
+  match mrb_abs s with
   | [] => pop s = Ok (s, None)
   | m :: q => exists s' p, pop s = Ok (s', Some (p, len m)) /\ read_msg s' p (len m) = Ok m /\
-                           MInv s' /\ size s' = size s /\ abs s' = q
+                           MInv s' /\ size s' = size s /\ mrb_abs s' = q
   end.
 Proof. exact pop_refines. Qed.
 Print Assumptions C08_pop_refines.
@@ -105,14 +105,14 @@ Print Assumptions C08_pop_refines.
 Theorem C08_reachable_inv :
   forall (B : N) (ops : list op), B <= 2147483648 -> Forall (op_guard B) ops ->
   exists s outs, run alloc (init B) ops = Ok (s, outs) /\ MInv s /\ size s = B /\
-                 fifo [] ops outs = Some (abs s).
+                 fifo [] ops outs = Some (mrb_abs s).
 Proof. exact reachable_inv_guarded. Qed.
 Print Assumptions C08_reachable_inv.
 
 Theorem C08_reachable_inv_fixed :
   forall (B : N) (ops : list op), B <= 2147483648 ->
   exists s outs, run alloc_fixed (init B) ops = Ok (s, outs) /\ MInv s /\ size s = B /\
-                 fifo [] ops outs = Some (abs s).
+                 fifo [] ops outs = Some (mrb_abs s).
 Proof. exact reachable_inv_fixed. Qed.
 Print Assumptions C08_reachable_inv_fixed.
 
